@@ -30,7 +30,7 @@ def _esc(text, specials, style):
     text when possible; 2: double-quote the whole text when possible."""
     if style in (1, 2):
         q = "'" if style == 1 else '"'
-        if q not in text and "\\" not in text and text:
+        if text and not any(c in text for c in "\\[]()'\""):
             return q + text + q
     return "".join("\\" + c if c in specials else c for c in text)
 
